@@ -263,9 +263,14 @@ class RefEngine:
     def alpha(self, curve):
         if curve.ctrlpoints is None:
             return None
-        L = [M.Fr(k) for k in curve.knotvector]
-        P = [self.point_exact(pt) for pt in curve.ctrlpoints]
-        W = None if curve.weights is None else [M.Fr(w) for w in curve.weights]
+        try:
+            L = [M.Fr(k) for k in curve.knotvector]
+            P = [self.point_exact(pt) for pt in curve.ctrlpoints]
+            W = None if curve.weights is None else [M.Fr(w) for w in curve.weights]
+        except (TypeError, ValueError, AttributeError):
+            return None      # not a numeric state (only reachable after the library accepted non-numeric data)
+        if len(set(len(x) if isinstance(x, tuple) else 0 for x in P)) != 1:
+            return None
         if M.wellformed(L) is None or len(P) != len(L) - M.wellformed(L) - 1 or (W is not None and len(W) != len(P)):
             return None
         return (L, P, W)
